@@ -80,6 +80,8 @@ CONFIGS: dict[str, dict[str, Any]] = {
     "slsqp-output-dir": {"optimizer": {"method": "slsqp", "options": {"maxiter": 2}}, "_paths": True},
     # text outside ASCII in the configuration (directory and file names)
     "slsqp-output-dir-non-ascii": {"optimizer": {"method": "slsqp", "options": {"maxiter": 2}}, "_paths": "non-ascii"},
+    # an output directory that does not exist (yet): whoever wants to write there creates it, the run itself does not need it
+    "slsqp-output-dir-missing": {"optimizer": {"method": "slsqp", "options": {"maxiter": 2}}, "_paths": "missing"},
     # option values that are NumPy scalars (as they come out of array arithmetic or YAML/NumPy based front-ends)
     "slsqp-numpy-scalar-options": {"optimizer": {"method": "slsqp", "options": {"maxiter": 3, "ftol": 1e-7}}, "_numpy_options": True},
     # one evaluation takes longer than any time-out inside the protocol (11 s; only slept in the external run)
@@ -143,7 +145,11 @@ def build(name: str, external: bool) -> tuple[dict[str, Any], AffineEvaluator, i
         # (the protocol's delimiter word, or text outside ASCII, inside a string value)
         prefix, stdout = ("c20-Größe-結果-", "ausgabe-é.out") if spec["_paths"] == "non-ascii" else ("c20-out---READY---", "optimizer.out")
         out_dir = tempfile.mkdtemp(prefix=prefix)
-        cfg["optimizer"] = {**cfg["optimizer"], "output_dir": out_dir, "stdout": stdout}
+        if spec["_paths"] == "missing":
+            os.rmdir(out_dir)
+            cfg["optimizer"] = {**cfg["optimizer"], "output_dir": os.path.join(out_dir, "not", "created")}
+        else:
+            cfg["optimizer"] = {**cfg["optimizer"], "output_dir": out_dir, "stdout": stdout}
     if external:
         cfg["optimizer"] = {**cfg["optimizer"], "method": "external/" + cfg["optimizer"]["method"]}
     c_n = 1 if "nonlinear_constraints" in cfg else 0
